@@ -45,6 +45,8 @@ type DB struct {
 	Log      []Stmt
 	OnCommit func(changes []Change)
 	FailNext error // the next statement fails with this error
+	// FailMeta: information_schema queries fail with this error (e.g. driver.ErrBadConn: the pooled connection is gone)
+	FailMeta error
 	// SlowSelect: a SELECT is in flight for one scheduling step before it reads the table
 	SlowSelect bool
 	pending  []Change
@@ -701,6 +703,9 @@ func (d *DB) query(s string, args []driver.Value) (driver.Rows, error) {
 	ps, err := Parse(s, args)
 	if err != nil {
 		return nil, err
+	}
+	if ps.Kind == "META" && d.FailMeta != nil {
+		return nil, d.FailMeta
 	}
 	if ps.Kind == "META" {
 		// SELECT column_name FROM information_schema.columns WHERE table_schema = ? AND table_name = ? ...
